@@ -12,8 +12,9 @@
 EXTENDS StyleSettingsCore, TLC, Json
 
 CONSTANTS
-  MaxWeight,   \* explore states with at most this many overridden nodes
-  MaxOps,      \* ... reached by histories of at most this many operations
+  MaxWeight,   \* explore every state with at most this many overridden nodes (this contains
+               \* every state reachable by a history of MaxWeight operations) and ALL
+               \* transitions between such states (histories of any length)
   Rich         \* TRUE: larger value / bad-value / override alphabets
 
 Tree == [par |-> <<0, 1, 2, 2, 3, 5, 4>>, nc |-> 5]
@@ -30,7 +31,7 @@ Values(f, set) ==
   CASE set = "rm" -> RmVals(f)
     [] set = "fs" -> {BoolV(TRUE), BoolV(FALSE)}
     [] set = "rf" -> {BoolV(TRUE), BoolV(FALSE)}
-    [] set = "jq" -> {IntV(0), IntV(95)} \cup (IF Rich THEN {IntV(-1), IntV(-7)} ELSE {})
+    [] set = "jq" -> {IntV(0), IntV(95)} \cup (IF Rich THEN {IntV(-1)} ELSE {})
     [] set = "nb" -> {IntV(1), IntV(1000000000)}
 
 Bad(f, set) ==
@@ -89,7 +90,7 @@ Render == \E n \in Nodes(Tree), o \in Overrides(fam) :
 Next == Set \/ UnsetAt \/ SetInvalid \/ UnsetUnsupported \/ InstanceSetClassOnly \/ Render
 Spec == Init /\ [][Next]_vars
 
-Bound == Weight(S, cur) <= MaxWeight /\ TLCGet("level") <= MaxOps + 1
+Bound == Weight(S, cur) <= MaxWeight
 
 \* --- state invariants -----------------------------------------------------
 TypeOK ==
@@ -97,10 +98,12 @@ TypeOK ==
         S[set][n] = Unset \/ (set \in SettingsOf(fam) /\ Valid(fam, set, S[set][n]))
   /\ out.res \in {"ok", "rejected", "TypeError", "ValueError"}
 
+\* (the other settings are untouched: OnlyCurrentSettingTouched)
 EffectiveIsFirstSetValue ==
-  \A set \in Settings, n \in Nodes(Tree) : Eff(Tree, S, set, n) = EffByChain(Tree, S, set, n)
+  \A n \in Nodes(Tree) : Eff(Tree, S, cur, n) = EffByChain(Tree, S, cur, n)
 
 NbIsOneGlobal ==
+  cur = "nb" =>
   /\ \A n \in Nodes(Tree) : Eff(Tree, S, "nb", n) = Eff(Tree, S, "nb", 1)
   /\ \A n \in Nodes(Tree) \ {1} : S["nb"][n] = Unset
 
@@ -153,23 +156,22 @@ UsedMethodStep ==
 UsedMethodRule == [][UsedMethodStep]_vars
 
 \* --- edge dump (spec -> code replay) ---------------------------------------
-Show(v) == v.t \o ":" \o (IF v.t = "str" THEN v.s ELSE ToString(v.i))
+\* node identity of the dumped graph: the override map of the setting under test
+Key(s) == [fam |-> fam, cur |-> cur, ov |-> [n \in 1..N |-> Show(s[cur][n])]]
 
-Obs(s) ==
-  [fam |-> fam, cur |-> cur,
-   ov |-> [n \in 1..N |-> Show(s[cur][n])],
-   eff |-> [n \in 1..N |-> Show(ObsEff(Tree, fam, s, cur, n))],
-   gate |-> [n \in 1..N |-> Gate(Tree, s, n)]]
+\* what the real code must show after the operation, at every node
+Exp(s) == [eff |-> [n \in 1..N |-> Show(ObsEff(Tree, fam, s, cur, n))],
+           gate |-> [n \in 1..N |-> Gate(Tree, s, n)]]
 
-OpOut(o) == [k |-> o.op.k, set |-> o.op.set, n |-> o.op.n, a |-> Show(o.op.a),
-             res |-> o.res, used |-> o.used]
+OpOut(o, s2) == [k |-> o.op.k, set |-> o.op.set, n |-> o.op.n, a |-> Show(o.op.a),
+                 res |-> o.res, used |-> o.used, exp |-> Exp(s2)]
 
-Dump == PrintT(<<"EDGE", ToJson([from |-> Obs(S), op |-> OpOut(out'), to |-> Obs(S')])>>)
+Dump == PrintT(<<"EDGE", ToJson([from |-> Key(S), op |-> OpOut(out', S'), to |-> Key(S')])>>)
 
-\* printed once per initial state: the initial projection, the tree and the defaults
+\* printed once per initial state: the initial node, the tree and the defaults
 InitDump ==
   TLCGet("level") = 1 =>
-    /\ PrintT(<<"INIT", ToJson(Obs(S))>>)
+    /\ PrintT(<<"INIT", ToJson(Key(S))>>)
     /\ PrintT(<<"DEFAULTS", ToJson([fam |-> fam, par |-> Tree.par, nc |-> Tree.nc,
                  eff |-> [i \in 1..Len(SettingSeq) |->
                             [set |-> SettingSeq[i], v |-> Show(ObsDefault(fam, SettingSeq[i]))]],
